@@ -94,10 +94,13 @@ type driverDef struct {
 	name     string
 	schema   am.Schema
 	handlers bool
-	limit    uint16
-	bound    map[string]int
-	threads  func(w *world) []func()
-	names    []string
+	// handlersG: AState queues three mutations and waits on their queue ticks
+	// (two waiters on the first, one on the last)
+	handlersG bool
+	limit     uint16
+	bound     map[string]int
+	threads   func(w *world) []func()
+	names     []string
 }
 
 func closed(ch <-chan struct{}) bool {
@@ -123,6 +126,24 @@ func mkDriver(d driverDef) *sk.Driver {
 			if d.handlers {
 				bindHandlers(w)
 			}
+			if d.handlersG {
+				m := w.m
+				m.HandlersBindMaps(nil, map[string]am.HandlerFinal{"AState": func(e *am.Event) {
+					w.enter("AState")
+					mm := e.Machine()
+					for _, st := range []string{"B", "C", "D"} {
+						r := mm.Add1(st, nil)
+						w.results = append(w.results, res{"AState/" + st, r})
+						if r >= am.Queued {
+							w.chans = append(w.chans, sub{"AState/" + st, r, mm.WhenQueue(r)})
+							if st == "B" {
+								w.chans = append(w.chans, sub{"AState/" + st + "'", r, mm.WhenQueue(r)})
+							}
+						}
+					}
+					w.leave()
+				}})
+			}
 			var joins []func()
 			for i, th := range d.threads(w) {
 				joins = append(joins, sk.Go(d.names[i], th))
@@ -141,6 +162,9 @@ func mkDriver(d driverDef) *sk.Driver {
 				r.Violate("blocked", "threads still blocked at the horizon: %v", s.Stuck)
 			}
 			m := w.m
+			if len(r.Held) > 0 {
+				r.Violate("lock-leaked", "locks still held after every caller returned: %v", r.Held)
+			}
 			if w.maxIn > 1 {
 				r.Violate("overlap", "%d handlers/evals of one machine ran concurrently", w.maxIn)
 			}
@@ -152,7 +176,11 @@ func mkDriver(d driverDef) *sk.Driver {
 					r.Violate("order", "queue ticks processed out of order: %v", w.order)
 				}
 			}
-			if !s.Deadlock && len(s.Stuck) == 0 {
+			if r.Wedged() {
+				r.Observe("wedged log=%v", w.log)
+				return // the machine cannot be touched without blocking for real
+			}
+			if len(s.Stuck) == 0 {
 				ql := m.QueueLen()
 				var lost []string
 				for _, x := range w.results {
@@ -264,6 +292,13 @@ func drivers() []*sk.Driver {
 				return []func(){
 					func() { w.results = append(w.results, res{"can", w.m.CanAdd1("C", nil)}) },
 					func() { w.call("t2", func() am.Result { return w.m.Add1("B", nil) }) },
+				}
+			}},
+		{name: "g:handler-queues-three", schema: plain, bound: b(1, 2), names: []string{"t1", "t2"}, handlersG: true,
+			threads: func(w *world) []func() {
+				return []func(){
+					func() { w.call("t1", func() am.Result { return w.m.Add1("A", nil) }) },
+					func() { w.call("t2", func() am.Result { return w.m.Add1("Z", nil) }) },
 				}
 			}},
 		{name: "f:three-limit2", schema: plain, limit: 2, bound: b(1, 2), names: []string{"t1", "t2", "t3"},
